@@ -186,6 +186,71 @@ func extractMonitorLocking(repo string) (map[string]bool, error) {
 	return out, nil
 }
 
+// extractLockMentions lists every mention of txnMutex in the non-test files of package server that is not one of the
+// two statements of a handler's prologue (`o.txnMutex.Lock()` / `defer o.txnMutex.Unlock()` as top-level statements of
+// Transact, Monitor, MonitorCond, MonitorCondSince) or the field's declaration: a release and re-acquisition from
+// somewhere else (a callback, a helper, a function literal) takes the serial section apart without touching the
+// handlers.
+func extractLockMentions(repo string) ([]string, error) {
+	fset := token.NewFileSet()
+	files, err := filepath.Glob(filepath.Join(repo, "server", "*.go"))
+	if err != nil {
+		return nil, err
+	}
+	var stray []string
+	for _, fn := range files {
+		if strings.HasSuffix(fn, "_test.go") {
+			continue
+		}
+		f, err := parser.ParseFile(fset, fn, nil, 0)
+		if err != nil {
+			return nil, err
+		}
+		allowed := map[ast.Node]bool{}
+		for _, d := range f.Decls {
+			fd, ok := d.(*ast.FuncDecl)
+			if !ok || fd.Recv == nil || fd.Body == nil {
+				continue
+			}
+			switch fd.Name.Name {
+			case "Transact", "Monitor", "MonitorCond", "MonitorCondSince":
+			default:
+				continue
+			}
+			for _, st := range fd.Body.List {
+				var call *ast.CallExpr
+				switch x := st.(type) {
+				case *ast.ExprStmt:
+					call, _ = x.X.(*ast.CallExpr)
+				case *ast.DeferStmt:
+					call = x.Call
+				}
+				if call == nil {
+					continue
+				}
+				if se, ok := call.Fun.(*ast.SelectorExpr); ok && (se.Sel.Name == "Lock" || se.Sel.Name == "Unlock") {
+					if in, ok := se.X.(*ast.SelectorExpr); ok && in.Sel.Name == "txnMutex" {
+						allowed[in] = true
+					}
+				}
+			}
+		}
+		var enclosing string
+		ast.Inspect(f, func(n ast.Node) bool {
+			switch x := n.(type) {
+			case *ast.FuncDecl:
+				enclosing = x.Name.Name
+			case *ast.SelectorExpr:
+				if x.Sel.Name == "txnMutex" && !allowed[x] {
+					stray = append(stray, fmt.Sprintf("%s:%d (in %s)", filepath.Base(fn), fset.Position(x.Pos()).Line, enclosing))
+				}
+			}
+			return true
+		})
+	}
+	return stray, nil
+}
+
 func c17Schema() dyn.Schema {
 	return dyn.Schema{Name: "C17", Tables: []dyn.Table{
 		{Name: "Ctr", IsRoot: true, Indexes: [][]string{{"name"}}, Cols: []val.Col{{Name: "name", K: 'a', KT: 's'}, {Name: "n", K: 'a', KT: 'i'}}},
@@ -276,7 +341,26 @@ func driveC17(o opts) error {
 			fo2["detail"] = fmt.Sprintf("handlers holding txnMutex: %v; %s", locked, strings.TrimSpace(string(outb)))
 		}
 	}
-	w.Extra["fact_obligations"] = []interface{}{fo, fo2}
+	// third fact: nothing else in the package touches the transaction lock
+	fo3 := map[string]interface{}{"name": "txnMutex is only taken and released in the prologue of the four handlers (package server)", "ok": false}
+	if stray, err := extractLockMentions(repo); err != nil {
+		fo3["detail"] = "extraction failed: " + err.Error()
+	} else {
+		src := "From Coq Require Import List Arith.\nImport ListNotations.\n(* generated from server/*.go on every run *)\n" +
+			fmt.Sprintf("Definition stray_lock_mentions : nat := %d.\n", len(stray)) +
+			"Lemma no_stray_lock_mention : stray_lock_mentions = 0.\nProof. reflexivity. Qed.\n"
+		_ = os.WriteFile(filepath.Join(o.out, "facts_C17_mentions.v"), []byte(src), 0o644)
+		cmd := exec.Command("coqc", "facts_C17_mentions.v")
+		cmd.Dir = o.out
+		outb, err := cmd.CombinedOutput()
+		fo3["extracted"] = stray
+		if err == nil && len(stray) == 0 {
+			fo3["ok"] = true
+		} else {
+			fo3["detail"] = fmt.Sprintf("txnMutex is also used at %v; %s", stray, strings.TrimSpace(string(outb)))
+		}
+	}
+	w.Extra["fact_obligations"] = []interface{}{fo, fo2, fo3}
 
 	sc := c17Schema()
 	for ci := 0; ci < ncases; ci++ {
